@@ -13,7 +13,7 @@ vd=$(mktemp -d /tmp/verifmutv.XXXXXX)
 cp /verif/known_findings.jsonl "$vd/" 2>/dev/null || true
 mkdir -p "$vd/sa" && ln -s /verif/sa/testdata "$vd/sa/testdata"
 set +e
-/verif/bin/verifsa check "$prop" --repo "$d" --verif "$vd" "$@"
+${VERIFSA_BIN:-/verif/bin/verifsa} check "$prop" --repo "$d" --verif "$vd" "$@"
 rc=$?
 rm -rf "$vd"
 exit $rc
